@@ -1,15 +1,24 @@
-/* C07a: fuzzy_round on its callers' domain x >= 0: integral result, floor below X.5 (beyond the tolerance), ceil at/near X.5 */
+/* C07a: fuzzy_round, both signs: integral result; nearest integer, with X.5 (within the tolerance) going away from zero.
+ * x >= 0: floor below X.5 (beyond the tolerance), ceil at/near X.5. x < 0 (dart-sass: `%` is the Euclidean remainder):
+ * floor at/near and below X.5, ceil above it. */
 #include "kernels.c"
 double nondet_double(void);
 int main(void) {
   double x = nondet_double();
-  RS_ASSUME(x >= 0.0 && x < 1099511627776.0); /* 2^40 */
+  RS_ASSUME(x > -1099511627776.0 && x < 1099511627776.0); /* 2^40 */
   double r = KERNEL_fuzzy_round(x);
-  double fl = floor(x), ce = ceil(x), frac = x - fl; /* exact */
+  double fl = floor(x), ce = ceil(x), frac = x - fl; /* exact for |x| >= 1/2; within 2^-53 otherwise */
   PROP(r == fl || r == ce, "C07a: fuzzy_round result is not floor(x) or ceil(x)");
-  if (frac < 0.5 - 1.0000001e-11) PROP(r == fl, "C07a: fuzzy_round rounds up a number further than 1e-11 below X.5");
-  if (frac >= 0.5 - 4e-12) PROP(r == ce, "C07a: fuzzy_round rounds down a number at or within 4e-12 of X.5");
   if (frac == 0.0) PROP(r == x, "C07a: fuzzy_round changes an integer");
-  COVER(frac < 0.5 && r == ce && ce != fl, "rounded_up_just_below_half");
+  if (x >= 0.0) {
+    if (frac < 0.5 - 1.0000001e-11) PROP(r == fl, "C07a: fuzzy_round rounds up a number further than 1e-11 below X.5");
+    if (frac >= 0.5 - 4e-12) PROP(r == ce, "C07a: fuzzy_round rounds down a number at or within 4e-12 of X.5");
+  } else {
+    if (frac > 0.5 + 1.0000001e-11) PROP(r == ce, "C07a: fuzzy_round rounds a negative number away from zero although it is further than 1e-11 from X.5");
+    if (frac <= 0.5 + 4e-12) PROP(r == fl, "C07a: fuzzy_round rounds a negative number at or beyond X.5 (within 4e-12) towards zero");
+  }
+  COVER(x >= 0.0 && frac < 0.5 && r == ce && ce != fl, "rounded_up_just_below_half");
+  COVER(x < 0.0 && frac > 0.5 && r == fl && ce != fl, "negative_rounded_down_just_above_half");
+  COVER(x < 0.0 && x > -0.25 && r == ce, "small_negative_to_zero");
   return 0;
 }
